@@ -1,53 +1,535 @@
-// driver.cpp - snapsim entry point
+// driver.cpp - snapsim entry point: check / replay / run / selfcheck
 #include <cstdarg>
 #include <unistd.h>
+#include <fcntl.h>
+#include <signal.h>
+#include <time.h>
 #include <sys/stat.h>
-#include "sandbox.hpp"
-#include "model/contentfile.hpp"
+#include <sys/wait.h>
+#include <sys/personality.h>
+#include "run.hpp"
 
-int smoke_main(int argc, char** argv);
+static double now_wall()
+{
+	struct timespec ts;
+	clock_gettime(CLOCK_MONOTONIC, &ts);
+	return ts.tv_sec + ts.tv_nsec / 1e9;
+}
+
+static std::string g_verif = "/verif";
+static std::string g_shm;
+
+struct CheckPart { std::string family; int quick; int thorough; };
+struct CheckDef {
+	std::string prop;
+	std::string level;
+	std::vector<CheckPart> parts;
+	std::string rule;
+};
+
+std::vector<CheckDef>& check_table();
+
+static uint64_t run_seed_of(uint64_t base, const std::string& family, uint64_t index)
+{
+	return mix64(mix64(base, hash_str(family)), index) >> 1;
+}
+
+// ------------------------------------------------------------------ outcome <-> json (worker -> parent)
+
+static Json outcome_json(const RunPlan& p, const RunOutcome& o, uint64_t index, double wall)
+{
+	Json j = Json::obj();
+	j.set("index", index).set("family", p.family).set("seed", p.seed).set("commands", o.commands).set("cases", o.cases)
+		.set("nontrivial_cases", o.nontrivial_cases).set("sim_seconds", o.sim_seconds).set("decisions", o.decisions)
+		.set("nontrivial", o.nontrivial).set("digest", o.digest).set("harness_error", o.harness_error).set("harness_msg", o.harness_msg).set("wall", wall);
+	Json il = Json::arr();
+	for (auto h : o.interleavings) il.push(h);
+	j.set("interleavings", il);
+	Json ch = Json::arr();
+	for (auto h : o.case_hashes) ch.push(h);
+	j.set("case_hashes", ch);
+	Json pr = Json::obj();
+	for (auto& kv : o.probes) pr.set(kv.first, kv.second);
+	j.set("probes", pr);
+	Json fl = Json::obj();
+	for (auto& kv : o.faults) fl.set(kv.first, kv.second);
+	j.set("faults", fl);
+	Json vs = Json::arr();
+	for (auto& v : o.viol) vs.push(Json::obj().set("prop", v.prop).set("cls", v.cls).set("msg", v.msg).set("op", v.op_index).set("focus", v.focus));
+	j.set("viol", vs);
+	std::string ops;
+	uint64_t oh = 0;
+	for (auto& op : p.ops) oh = mix64(oh, hash_str(op.dump()));
+	oh = mix64(oh, hash_str(p.cfg.to_json().dump()));
+	j.set("ops_hash", oh).set("nops", (uint64_t)p.ops.size());
+	if (o.sample.type != Json::NUL) j.set("sample", o.sample);
+	return j;
+}
+
+// ------------------------------------------------------------------ known findings
+
+struct Known {
+	std::string prop, id, status, cls, what;
+	std::vector<std::string> must; // substrings of the message
+};
+
+static std::vector<Known> load_known()
+{
+	std::vector<Known> v;
+	Bytes b;
+	if (!read_file(g_verif + "/known_findings.json", b)) return v;
+	Json j;
+	if (!Json::parse(b, j)) return v;
+	for (auto& e : j.at("findings").a) {
+		Known k;
+		k.prop = e.str("property"); k.id = e.str("id"); k.status = e.str("status"); k.cls = e.str("class"); k.what = e.str("what");
+		for (auto& m : e.at("message_contains").a) k.must.push_back(m.s);
+		v.push_back(k);
+	}
+	return v;
+}
+
+static const Known* match_known(const std::vector<Known>& ks, const std::string& prop, const std::string& cls, const std::string& msg)
+{
+	for (auto& k : ks) {
+		if (k.status != "known") continue; // fixed entries suppress nothing
+		if (k.prop != prop || k.cls != cls) continue;
+		bool ok = true;
+		for (auto& m : k.must) if (msg.find(m) == std::string::npos) ok = false;
+		if (ok) return &k;
+	}
+	return nullptr;
+}
+
+// ------------------------------------------------------------------ executing one plan in a fresh process
+
+static bool run_plan_fresh(const RunPlan& p, Json& result, int timeout_s = 300)
+{
+	static int counter = 0;
+	std::string file = g_shm + strf("/fresh%d.json", counter++);
+	fflush(stdout);
+	pid_t pid = fork();
+	if (pid == 0) {
+		alarm(timeout_s);
+		double t0 = now_wall();
+		RunOutcome o = execute_plan(p, g_shm + "/fresh");
+		Json j = outcome_json(p, o, 0, now_wall() - t0);
+		write_file(file, j.dump());
+		_exit(0);
+	}
+	int st = 0;
+	while (waitpid(pid, &st, 0) < 0 && errno == EINTR) {}
+	Bytes b;
+	bool ok = WIFEXITED(st) && WEXITSTATUS(st) == 0 && read_file(file, b) && Json::parse(b, result);
+	unlink(file.c_str());
+	return ok;
+}
+
+static bool has_violation(const Json& res, const std::string& prop, const std::string& cls)
+{
+	for (auto& v : res.at("viol").a)
+		if (v.str("prop") == prop && v.str("cls") == cls) return true;
+	return false;
+}
+
+static const Json* find_violation(const Json& res, const std::string& prop, const std::string& cls)
+{
+	for (auto& v : res.at("viol").a)
+		if (v.str("prop") == prop && v.str("cls") == cls) return &v;
+	return nullptr;
+}
+
+// ddmin over ops; the op that raised the violation (and its focus) is kept
+static RunPlan minimise(const RunPlan& orig, const std::string& prop, const std::string& cls, int viol_op, const Json& focus, int& reruns)
+{
+	RunPlan best = orig;
+	best.focus = focus;
+	best.focus_op = focus.type != Json::NUL ? viol_op : -1;
+	std::vector<int> keep; // indices into orig.ops
+	for (size_t i = 0; i < orig.ops.size(); ++i) keep.push_back((int)i);
+	// ops after the violating op are irrelevant
+	if (viol_op >= 0) keep.resize((size_t)viol_op + 1);
+	auto build = [&](const std::vector<int>& idx) {
+		RunPlan p = orig;
+		p.ops.clear();
+		p.focus = focus;
+		p.focus_op = -1;
+		for (size_t k = 0; k < idx.size(); ++k) {
+			if (idx[k] == viol_op && focus.type != Json::NUL) p.focus_op = (int)k;
+			p.ops.push_back(orig.ops[(size_t)idx[k]]);
+		}
+		return p;
+	};
+	auto fails = [&](const std::vector<int>& idx) {
+		if (reruns >= 300) return false;
+		++reruns;
+		Json r;
+		RunPlan p = build(idx);
+		if (!run_plan_fresh(p, r, 120)) return false;
+		return has_violation(r, prop, cls);
+	};
+	double t0 = now_wall();
+	if (!fails(keep)) return best; // truncation changed behaviour: keep the original
+	best = build(keep);
+	size_t n = 2;
+	while (keep.size() >= 2 && now_wall() - t0 < 60 && reruns < 300) {
+		size_t chunk = (keep.size() + n - 1) / n;
+		bool reduced = false;
+		for (size_t s = 0; s < keep.size(); s += chunk) {
+			std::vector<int> cand;
+			for (size_t i = 0; i < keep.size(); ++i) {
+				bool in_chunk = i >= s && i < s + chunk;
+				if (!in_chunk || keep[i] == viol_op) cand.push_back(keep[i]);
+			}
+			if (cand.size() == keep.size()) continue;
+			if (fails(cand)) {
+				keep = cand;
+				best = build(keep);
+				n = std::max<size_t>(n - 1, 2);
+				reduced = true;
+				break;
+			}
+		}
+		if (!reduced) {
+			if (n >= keep.size()) break;
+			n = std::min(keep.size(), n * 2);
+		}
+	}
+	return best;
+}
+
+// ------------------------------------------------------------------ check
+
+struct Agg {
+	uint64_t runs = 0, commands = 0, cases = 0, nontrivial_cases = 0, decisions = 0;
+	int64_t sim_seconds = 0;
+	std::set<uint64_t> ops_hashes, nontrivial_hashes, interleavings, case_hashes;
+	std::map<std::string, uint64_t> probes, faults;
+	std::vector<Json> samples;
+	std::vector<Json> own_viol, cross;
+	uint64_t determinism_checked = 0, determinism_mismatch = 0;
+	std::map<std::string, uint64_t> runs_by_family;
+	bool harness_error = false;
+	std::string harness_msg;
+};
+
+static int do_check(const std::string& prop, int tier, uint64_t base_seed, int jobs, int runs_override, const std::string& only_family)
+{
+	const CheckDef* def = nullptr;
+	for (auto& d : check_table()) if (d.prop == prop) def = &d;
+	if (!def) { fprintf(stderr, "no check for %s\n", prop.c_str()); return 2; }
+	double t0 = now_wall();
+	// work list
+	struct Item { const Family* fam; uint64_t index; };
+	std::vector<Item> items;
+	for (auto& part : def->parts) {
+		if (!only_family.empty() && part.family != only_family) continue;
+		const Family* f = find_family(part.family);
+		if (!f) { fprintf(stderr, "unknown family %s\n", part.family.c_str()); return 2; }
+		int n = tier ? part.thorough : part.quick;
+		if (runs_override > 0) n = runs_override;
+		for (int i = 0; i < n; ++i) items.push_back({ f, (uint64_t)i });
+	}
+	// interleave families so that every worker sees a mix
+	std::vector<pid_t> pids;
+	for (int w = 0; w < jobs; ++w) {
+		fflush(stdout);
+		pid_t pid = fork();
+		if (pid == 0) {
+			std::string outp = g_shm + strf("/w%d.jsonl", w);
+			FILE* f = fopen(outp.c_str(), "w");
+			std::string root = g_shm + strf("/w%d", w);
+			for (size_t i = (size_t)w; i < items.size(); i += (size_t)jobs) {
+				uint64_t seed = run_seed_of(base_seed, items[i].fam->name, items[i].index);
+				fprintf(f, "{\"start\":%zu}\n", i);
+				fflush(f);
+				double ts = now_wall();
+				RunPlan p = items[i].fam->gen(seed, tier);
+				RunOutcome o = execute_plan(p, root);
+				Json j = outcome_json(p, o, items[i].index, now_wall() - ts);
+				// determinism sample: re-execute ~3% of the runs and compare digests
+				if ((mix64(seed, 99) % 32) == 0 && !o.harness_error) {
+					RunOutcome o2 = execute_plan(p, root);
+					j.set("det_checked", 1).set("det_equal", o2.digest == o.digest && o2.viol.size() == o.viol.size());
+				}
+				if (!o.viol.empty()) j.set("plan", p.to_json());
+				fprintf(f, "%s\n", j.dump().c_str());
+				fflush(f);
+			}
+			fclose(f);
+			_exit(0);
+		}
+		pids.push_back(pid);
+	}
+	Agg a;
+	for (int w = 0; w < jobs; ++w) {
+		int st = 0;
+		while (waitpid(pids[(size_t)w], &st, 0) < 0 && errno == EINTR) {}
+		bool died = !(WIFEXITED(st) && WEXITSTATUS(st) == 0);
+		Bytes b;
+		read_file(g_shm + strf("/w%d.jsonl", w), b);
+		int64_t last_start = -1;
+		bool last_done = true;
+		for (auto& line : split(b, '\n')) {
+			if (line.empty()) continue;
+			Json j;
+			if (!Json::parse(line, j)) continue;
+			if (j.has("start")) { last_start = j.num("start"); last_done = false; continue; }
+			last_done = true;
+			++a.runs;
+			a.runs_by_family[j.str("family")]++;
+			a.commands += (uint64_t)j.num("commands");
+			a.cases += (uint64_t)j.num("cases");
+			a.nontrivial_cases += (uint64_t)j.num("nontrivial_cases");
+			a.decisions += (uint64_t)j.num("decisions");
+			a.sim_seconds += j.num("sim_seconds");
+			a.ops_hashes.insert((uint64_t)j.num("ops_hash"));
+			if (j.at("nontrivial").b) a.nontrivial_hashes.insert((uint64_t)j.num("ops_hash"));
+			for (auto& h : j.at("interleavings").a) a.interleavings.insert((uint64_t)h.i);
+			for (auto& h : j.at("case_hashes").a) a.case_hashes.insert((uint64_t)h.i);
+			for (auto& kv : j.at("probes").o) a.probes[kv.first] += (uint64_t)kv.second.i;
+			for (auto& kv : j.at("faults").o) a.faults[kv.first] += (uint64_t)kv.second.i;
+			if (j.has("det_checked")) { ++a.determinism_checked; if (!j.at("det_equal").b) ++a.determinism_mismatch; }
+			if (j.at("harness_error").b) { a.harness_error = true; if (a.harness_msg.empty()) a.harness_msg = j.str("harness_msg"); }
+			if (j.has("sample") && a.samples.size() < 4) a.samples.push_back(j.at("sample"));
+			for (auto& v : j.at("viol").a) {
+				Json e = Json::obj();
+				e.set("prop", v.str("prop")).set("cls", v.str("cls")).set("msg", v.str("msg")).set("family", j.str("family")).set("seed", j.at("seed")).set("index", j.at("index")).set("op", v.at("op")).set("focus", v.at("focus"));
+				if (v.str("prop") == prop) { e.set("plan", j.at("plan")); a.own_viol.push_back(e); }
+				else if (a.cross.size() < 40) a.cross.push_back(e);
+			}
+		}
+		if (died || !last_done) {
+			a.harness_error = true;
+			if (a.harness_msg.empty()) a.harness_msg = strf("worker %d died at item %lld", w, (long long)last_start);
+		}
+	}
+	if (a.determinism_mismatch) { a.harness_error = true; a.harness_msg = "determinism sample mismatch"; }
+
+	// ---- triage own violations: known findings, gate, minimise, replay files
+	std::vector<Known> known = load_known();
+	int violations = 0;
+	std::set<std::string> known_printed;
+	std::vector<Json> known_hits;
+	std::set<std::string> reported_classes;
+	bool gate_failed = false;
+	for (auto& v : a.own_viol) {
+		std::string cls = v.str("cls"), msg = v.str("msg");
+		const Known* k = match_known(known, prop, cls, msg);
+		if (k) {
+			if (known_printed.insert(k->id).second) {
+				printf("KNOWN-FINDING: property=%s %s: %s\n", prop.c_str(), k->id.c_str(), k->what.c_str());
+				known_hits.push_back(Json::obj().set("id", k->id).set("example", msg).set("seed", v.at("seed")));
+			}
+			continue;
+		}
+		if (!reported_classes.insert(cls).second && violations >= 3) { ++violations; continue; }
+		// gate: reproduce twice in fresh processes with the same class
+		RunPlan p = RunPlan::from_json(v.at("plan"));
+		Json r1, r2;
+		bool ok1 = run_plan_fresh(p, r1) && has_violation(r1, prop, cls);
+		bool ok2 = run_plan_fresh(p, r2) && has_violation(r2, prop, cls);
+		if (!ok1 || !ok2 || r1.num("digest") != r2.num("digest")) {
+			gate_failed = true;
+			fprintf(stderr, "HARNESS: violation %s/%s of seed %lld did not reproduce deterministically\n", prop.c_str(), cls.c_str(), (long long)v.num("seed"));
+			continue;
+		}
+		int reruns = 0;
+		RunPlan m = minimise(p, prop, cls, (int)v.num("op"), v.at("focus"), reruns);
+		Json rm;
+		bool okm = run_plan_fresh(m, rm) && has_violation(rm, prop, cls);
+		if (!okm) { m = p; m.focus = v.at("focus"); m.focus_op = v.at("focus").type != Json::NUL ? (int)v.num("op") : -1; run_plan_fresh(m, rm); }
+		const Json* mv = find_violation(rm, prop, cls);
+		// the minimised case may itself be a known finding
+		if (mv) {
+			const Known* k2 = match_known(known, prop, cls, mv->str("msg"));
+			if (k2) {
+				if (known_printed.insert(k2->id).second) printf("KNOWN-FINDING: property=%s %s: %s\n", prop.c_str(), k2->id.c_str(), k2->what.c_str());
+				continue;
+			}
+		}
+		mkdir((g_verif + "/replays").c_str(), 0755);
+		std::string path = g_verif + strf("/replays/%s-%s-%llu.json", prop.c_str(), v.str("family").c_str(), (unsigned long long)v.num("seed"));
+		Json rep = Json::obj();
+		rep.set("property", prop).set("class", cls).set("message", mv ? mv->str("msg") : msg).set("family", v.str("family")).set("run_seed", v.at("seed"))
+			.set("verif_seed", base_seed).set("digest", rm.at("digest")).set("original_ops", (uint64_t)p.ops.size()).set("minimised_ops", (uint64_t)m.ops.size())
+			.set("minimise_reruns", reruns).set("plan", m.to_json());
+		write_file(path, rep.dump(1));
+		printf("VIOLATION property=%s replay=%s\n", prop.c_str(), path.c_str());
+		printf("  class=%s family=%s seed=%llu ops=%zu->%zu: %s\n", cls.c_str(), v.str("family").c_str(), (unsigned long long)v.num("seed"), p.ops.size(), m.ops.size(), (mv ? mv->str("msg") : msg).substr(0, 500).c_str());
+		++violations;
+	}
+
+	// ---- evidence
+	double wall = now_wall() - t0;
+	Json ev = Json::obj();
+	ev.set("property_id", prop).set("tier", tier ? "thorough" : "quick").set("seed", base_seed).set("level", def->level);
+	Json cov = Json::obj();
+	uint64_t evaluations = a.runs + a.cases;
+	uint64_t distinct_nt = a.nontrivial_hashes.size() + a.case_hashes.size();
+	cov.set("evaluations", evaluations).set("distinct_nontrivial", distinct_nt).set("rule", def->rule);
+	Json samples = Json::arr();
+	for (auto& s : a.samples) samples.push(s);
+	cov.set("samples", samples);
+	cov.set("runs", a.runs).set("enumerated_cases", a.cases).set("nontrivial_cases", a.nontrivial_cases).set("distinct_op_sequences", (uint64_t)a.ops_hashes.size());
+	Json rbf = Json::obj();
+	for (auto& kv : a.runs_by_family) rbf.set(kv.first, kv.second);
+	cov.set("runs_by_family", rbf);
+	cov.set("commands_simulated", a.commands).set("scheduling_decisions", a.decisions).set("distinct_interleavings", (uint64_t)a.interleavings.size());
+	cov.set("interleaving_measure", "hash of the sequence of (chosen thread, #runnable) over all scheduling decisions of a command");
+	cov.set("simulated_seconds_covered", a.sim_seconds);
+	cov.set("runs_per_hour", wall > 0 ? (double)a.runs * 3600.0 / wall : 0.0).set("commands_per_hour", wall > 0 ? (double)a.commands * 3600.0 / wall : 0.0);
+	Json fl = Json::obj();
+	for (auto& kv : a.faults) fl.set(kv.first, kv.second);
+	cov.set("faults_fired", fl);
+	Json pr = Json::obj();
+	Json gaps = Json::arr();
+	for (auto& kv : a.probes) { pr.set(kv.first, kv.second); }
+	cov.set("probes", pr);
+	cov.set("determinism_sample", Json::obj().set("runs_reexecuted", a.determinism_checked).set("mismatches", a.determinism_mismatch));
+	cov.set("real_components", Json::arr().push("all snapraid objects compiled from /repo working tree").push("kernel tmpfs (file data, directory semantics, rename, flock, fallocate)"));
+	cov.set("simulated_components", Json::arr().push("thread scheduler (mutex/cond/join, wake-up choice, spurious wake-ups)").push("clock").push("inode/device/uuid/statfs/fiemap metadata").push("directory order").push("/dev/urandom").push("fault injection (kill, torn write, EIO/ENOSPC, short read, signals, concurrent change, device budgets)").push("external programs (refused)"));
+	Json cf = Json::arr();
+	for (auto& c : a.cross) cf.push(Json::obj().set("prop", c.str("prop")).set("cls", c.str("cls")).set("family", c.str("family")).set("seed", c.at("seed")).set("msg", c.str("msg").substr(0, 300)));
+	cov.set("cross_findings", cf);
+	Json kh = Json::arr();
+	for (auto& k : known_hits) kh.push(k);
+	cov.set("known_findings_hit", kh);
+	cov.set("exhaustive", false);
+	ev.set("coverage", cov);
+	ev.set("assumptions", Json::arr().push("crash model = process death on a page-cache file system (completed calls persist)").push("arrays are small (<= 8 disks, <= 48 stripes, 1-2 KiB blocks)").push("oracles: independent content decoder, GF(2^8) generator, pinned reference hashes, harness copy of every file version"));
+	ev.set("wall_s", wall).set("violations", violations);
+	mkdir((g_verif + "/evidence").c_str(), 0755);
+	// when a single family is run for debugging do not overwrite the evidence
+	if (only_family.empty() && runs_override <= 0) write_file(g_verif + "/evidence/" + prop + ".json", ev.dump(1));
+	else write_file(g_shm + "/evidence-debug.json", ev.dump(1));
+
+	printf("check %s tier=%s runs=%llu cases=%llu commands=%llu distinct_nontrivial=%llu interleavings=%zu violations=%d cross=%zu wall=%.1fs\n", prop.c_str(), tier ? "thorough" : "quick",
+		(unsigned long long)a.runs, (unsigned long long)a.cases, (unsigned long long)a.commands, (unsigned long long)distinct_nt, a.interleavings.size(), violations, a.cross.size(), wall);
+	if (!a.cross.empty()) {
+		std::map<std::string, int> cc;
+		for (auto& c : a.cross) cc[c.str("prop") + "/" + c.str("cls")]++;
+		for (auto& kv : cc) printf("  cross-finding %s x%d (see evidence)\n", kv.first.c_str(), kv.second);
+	}
+	if (a.harness_error || gate_failed) {
+		fprintf(stderr, "HARNESS ERROR: %s\n", a.harness_msg.c_str());
+		return 2;
+	}
+	return violations ? 1 : 0;
+}
+
+// ------------------------------------------------------------------ replay / run
+
+static int do_replay(const std::string& file)
+{
+	Bytes b;
+	Json j;
+	if (!read_file(file, b) || !Json::parse(b, j)) { fprintf(stderr, "cannot read %s\n", file.c_str()); return 2; }
+	RunPlan p = RunPlan::from_json(j.at("plan"));
+	Json r;
+	if (!run_plan_fresh(p, r)) { fprintf(stderr, "replay execution failed\n"); return 2; }
+	std::string prop = j.str("property"), cls = j.str("class");
+	const Json* v = find_violation(r, prop, cls);
+	if (v) {
+		printf("VIOLATION property=%s replay=%s\n  class=%s digest=%s: %s\n", prop.c_str(), file.c_str(), cls.c_str(), r.num("digest") == j.num("digest") ? "same" : "different", v->str("msg").substr(0, 800).c_str());
+		return 1;
+	}
+	printf("replay: no violation of %s/%s\n", prop.c_str(), cls.c_str());
+	for (auto& x : r.at("viol").a) printf("  other: %s/%s %s\n", x.str("prop").c_str(), x.str("cls").c_str(), x.str("msg").substr(0, 200).c_str());
+	return 0;
+}
+
+static int do_run(const std::string& family, uint64_t index, int tier, uint64_t base, bool verbose)
+{
+	const Family* f = find_family(family);
+	if (!f) { fprintf(stderr, "unknown family\n"); return 2; }
+	uint64_t seed = run_seed_of(base, family, index);
+	RunPlan p = f->gen(seed, tier);
+	if (verbose) printf("%s\n", p.to_json().dump(1).c_str());
+	double t0 = now_wall();
+	RunOutcome o = execute_plan(p, g_shm + "/run");
+	printf("run %s #%llu seed=%llu ops=%zu commands=%llu cases=%llu nontrivial=%d digest=%016llx wall=%.3f\n", family.c_str(), (unsigned long long)index, (unsigned long long)seed, p.ops.size(),
+		(unsigned long long)o.commands, (unsigned long long)o.cases, (int)o.nontrivial, (unsigned long long)o.digest, now_wall() - t0);
+	for (auto& kv : o.probes) printf("  probe %s=%llu\n", kv.first.c_str(), (unsigned long long)kv.second);
+	for (auto& kv : o.faults) printf("  fault %s=%llu\n", kv.first.c_str(), (unsigned long long)kv.second);
+	for (auto& v : o.viol) printf("  VIOL %s/%s op=%d %s %s\n", v.prop.c_str(), v.cls.c_str(), v.op_index, v.msg.substr(0, 600).c_str(), v.focus.type != Json::NUL ? v.focus.dump().c_str() : "");
+	if (o.harness_error) printf("  HARNESS %s\n", o.harness_msg.c_str());
+	return o.viol.empty() ? 0 : 1;
+}
+
+// determinism self check: many seeds x 2 executions across families
+static int do_selfcheck(int n, int jobs, uint64_t base)
+{
+	std::vector<pid_t> pids;
+	for (int w = 0; w < jobs; ++w) {
+		pid_t pid = fork();
+		if (pid == 0) {
+			int bad = 0;
+			std::string root = g_shm + strf("/s%d", w);
+			for (int i = w; i < n; i += jobs) {
+				const Family& f = families()[(size_t)i % families().size()];
+				uint64_t seed = run_seed_of(base, f.name, (uint64_t)i);
+				RunPlan p = f.gen(seed, 0);
+				RunOutcome a = execute_plan(p, root);
+				RunOutcome b = execute_plan(p, root);
+				if (a.digest != b.digest || a.viol.size() != b.viol.size()) {
+					printf("NONDETERMINISTIC family=%s index=%d seed=%llu\n", f.name.c_str(), i, (unsigned long long)seed);
+					++bad;
+				}
+			}
+			_exit(bad ? 1 : 0);
+		}
+		pids.push_back(pid);
+	}
+	int bad = 0;
+	for (auto pid : pids) {
+		int st = 0;
+		waitpid(pid, &st, 0);
+		if (!(WIFEXITED(st) && WEXITSTATUS(st) == 0)) ++bad;
+	}
+	printf("selfcheck determinism: %d runs x2, %d workers, %s\n", n, jobs, bad ? "MISMATCH" : "all digests equal");
+	return bad ? 2 : 0;
+}
+
+static void cleanup_shm()
+{
+	if (!g_shm.empty()) rm_rf(g_shm);
+}
 
 int main(int argc, char** argv)
 {
-	if (!sim_shared_create()) { fprintf(stderr, "cannot map shared state\n"); return 2; }
-	if (argc >= 2 && !strcmp(argv[1], "smoke")) return smoke_main(argc, argv);
-	fprintf(stderr, "usage: snapsim smoke\n");
-	return 2;
-}
-
-int smoke_main(int argc, char** argv)
-{
-	uint64_t seed = argc > 2 ? strtoull(argv[2], 0, 10) : 1;
-	Config c;
-	c.np = 2; c.splits = { 1, 2 };
-	for (int i = 1; i <= 3; ++i) { DiskCfg d; d.name = strf("d%d", i); d.top = d.name; d.uuid = strf("uuid-%d", i); c.disks.push_back(d); }
-	c.content = { "c0/content", "c1/content", "d1/content" };
-	std::string root = strf("/dev/shm/snapsim.%d", (int)getpid());
-	rm_rf(root);
-	Sandbox sb(root, c, seed);
-	sb.setup();
-	Rng rng(seed);
-	for (int d = 1; d <= 3; ++d)
-		for (int f = 0; f < 4; ++f) {
-			int64_t s, ns;
-			sb.next_stamp(s, ns);
-			sb.put_file(strf("d%d/dir%d/file%d", d, f % 2, f), gen_bytes(rng.next(), rng.below(5000)), s, ns);
+	// ASLR off for address-stable replays (best effort)
+	if (!getenv("SNAPSIM_NOASLR_DONE")) {
+		int pers = personality(0xffffffff);
+		if (pers != -1 && !(pers & ADDR_NO_RANDOMIZE) && personality(pers | ADDR_NO_RANDOMIZE) != -1) {
+			setenv("SNAPSIM_NOASLR_DONE", "1", 1);
+			execv("/proc/self/exe", argv);
 		}
-	CmdSpec sync; sync.cmd = "sync"; sync.sched_seed = seed;
-	CmdResult r = sb.run(sync);
-	printf("sync exit=%d sig=%d muts=%u ios=%u ev=%u threads=%u decisions=%u hash=%016llx\n", r.exit_code, r.term_sig, r.info.mut_count, r.info.io_count, r.info.nev, r.info.threads_created, r.info.decisions, (unsigned long long)trace_hash(r));
-	printf("--- out\n%s--- err\n%s", r.out.c_str(), r.err.c_str());
-	Bytes cf;
-	read_file(sb.abs("c0/content"), cf);
-	Content ct;
-	std::string e = content_decode(cf, ct);
-	printf("content: %zu bytes decode='%s' v%d files=%zu blockmax=%u maps=%zu\n", cf.size(), e.c_str(), ct.version, ct.files.size(), ct.blockmax, ct.maps.size());
-	Bytes re = content_encode(ct);
-	printf("re-encode identical: %d\n", re == cf);
-	CmdSpec chk; chk.cmd = "check"; chk.sched_seed = seed + 1;
-	r = sb.run(chk);
-	printf("check exit=%d ev=%u threads=%u decisions=%u\n", r.exit_code, r.info.nev, r.info.threads_created, r.info.decisions);
-	printf("%s", trace_digest_text(r, 30).c_str());
-	rm_rf(root);
-	return 0;
+	}
+	if (!sim_shared_create()) { fprintf(stderr, "cannot map shared state\n"); return 2; }
+	setvbuf(stdout, 0, _IOLBF, 0);
+	if (getenv("SNAPSIM_VERIF")) g_verif = getenv("SNAPSIM_VERIF");
+	g_shm = strf("/dev/shm/snapsim.%d", (int)getpid());
+	rm_rf(g_shm);
+	mkdir(g_shm.c_str(), 0755);
+	std::vector<std::string> args(argv + 1, argv + argc);
+	auto opt = [&](const std::string& name, const std::string& def) {
+		for (size_t i = 0; i + 1 < args.size(); ++i) if (args[i] == name) return args[i + 1];
+		return def;
+	};
+	auto flag = [&](const std::string& name) { for (auto& a : args) if (a == name) return true; return false; };
+	uint64_t seed = strtoull(opt("--seed", getenv("VERIF_SEED") ? getenv("VERIF_SEED") : "1").c_str(), 0, 10);
+	std::string tier_s = opt("--tier", getenv("VERIF_TIER") ? getenv("VERIF_TIER") : "quick");
+	int tier = tier_s == "thorough" ? 1 : 0;
+	int jobs = atoi(opt("--jobs", "16").c_str());
+	if (jobs < 1) jobs = 1;
+	int rc = 2;
+	if (args.size() >= 2 && args[0] == "check") rc = do_check(args[1], tier, seed, jobs, atoi(opt("--runs", "0").c_str()), opt("--family", ""));
+	else if (args.size() >= 2 && args[0] == "replay") rc = do_replay(args[1]);
+	else if (args.size() >= 3 && args[0] == "run") rc = do_run(args[1], strtoull(args[2].c_str(), 0, 10), tier, seed, flag("-v"));
+	else if (args.size() >= 1 && args[0] == "selfcheck") rc = do_selfcheck(atoi(opt("--n", "400").c_str()), jobs, seed);
+	else if (args.size() >= 1 && args[0] == "list") { for (auto& f : families()) printf("%s %s\n", f.name.c_str(), f.prop.c_str()); rc = 0; }
+	else fprintf(stderr, "usage: snapsim check <prop> [--tier t] [--seed n] [--jobs n] [--runs n] [--family f] | replay <file> | run <family> <index> [-v] | selfcheck | list\n");
+	cleanup_shm();
+	return rc;
 }
